@@ -27,10 +27,11 @@ Record cfg := mkCfg {
   fix_rest_delta : bool;    (* EventStreamPlayer._play_and_delta returns float(delta)       *)
   fix_pdur_event : bool;    (* Pdur converts the child's output with evt.event(...)          *)
   fix_pdur_int : bool;      (* Pdur stores the remaining time itself unless delta is a Rest  *)
-  fix_scale_tuning : bool   (* Scale.__init__ keeps a Tuning instance (octave ratio, spo)    *)
+  fix_scale_tuning : bool;  (* Scale.__init__ keeps a Tuning instance (octave ratio, spo)    *)
+  fix_scale_key : bool      (* EventDict.__call__ does not turn a Scale into an arrayed_param *)
 }.
-Definition patched := mkCfg true true true true.
-Definition unpatched := mkCfg false false false false.
+Definition patched := mkCfg true true true true true.
+Definition unpatched := mkCfg false false false false false.
 
 Record kern := mkK { k_midicps : Q -> Q; k_cpsmidi : Q -> Q; k_dbamp : Q -> Q; k_ampdb : Q -> Q }.
 
@@ -98,6 +99,10 @@ Definition truthy (v : value) : bool :=
   | VParams l => match l with [] => false | _ => true end
   | VNames l => match l with [] => false | _ => true end
   end.
+
+(* an explicit 'scale' key as EventDict.__call__ returns it: the released code wraps every tuple
+   (Scale is a tuple subclass) into an arrayed_param, which has none of Scale's attributes *)
+Definition scale_key (c : cfg) (s : scale) : value := if fix_scale_key c then VScale s else VSym "arrayed_param".
 
 (* ---- scale.py ----------------------------------------------------------------------------- *)
 (* def degree_to_key(self, degree, acc=0):  base_key = (spo * (degree // l)) + self[int(degree) % l] *)
@@ -667,6 +672,17 @@ Definition kern_of (t1 t2 t3 t4 : list (Q * Q)) : kern := mkK (tbl t1) (tbl t2) 
 Definition value_num_close (v : value) (kind : nat) (x : num) : bool :=
   match v with
   | VNum n => Nat.eqb kind 0 && num_close n x
-  | VRest n => Nat.eqb kind 1 && num_close n x
+  | VRest n => Nat.eqb kind 1 && num_closeq n x
   | _ => false
   end.
+
+(* one key-resolution case: every asked key (name, kind 0 number / 1 Rest, implementation value) *)
+Definition keys_ok K (e : event) (l : list (string * nat * num)) : bool :=
+  forallb (fun x => value_num_close (ev_call K e (fst (fst x))) (snd (fst x)) (snd x)) l.
+(* one pattern case: the model's score, ids renamed by first appearance, against the implementation's *)
+Definition pat_ok c K lib lat fuel depth p proto start (impl : list bundle) : bool :=
+  score_close (canon_score [] (score_of (sends c K lib lat fuel depth p proto start))) impl.
+Definition the_lib : synthlib :=
+  [("c14a", mkDesc ["freq"; "amp"; "gate"; "pan"] false);
+   ("c14b", mkDesc ["freq"; "amp"; "pan"; "cutoff"] false);
+   ("c14c", mkDesc ["out"; "freq"; "sustain"; "gate"; "detune"; "dur"; "legato"] false)].
